@@ -7,11 +7,11 @@ def run(tier):
     ck = Check("C01", tier, "exploration")
     thorough = tier == "thorough"
     cf, cases = model(ck)
-    lmax, big = (600, 1) if thorough else (160, 1)
+    lmax, big = (1000, 1) if thorough else (160, 1)
     nproc = min(14, NCPU)
     wd = workdir("aead")
     for cfg in (["stable", "nightly"] if thorough else ["stable", "nightly"]):
-        for s in range(3 if thorough else 1):
+        for s in range(5 if thorough else 1):
             reps = parallel(cfg, lambda o, k, n: ["aead-roundtrip", cf, o, ck.seed + s, lmax, big, k, n], nproc, os.path.join(wd, "rt_" + cfg))
             route(ck, reps, "" if cfg == "stable" else "[nightly] ", [""])
     triples = len(set((c["cons"], c["enc"], c["open"]) for c in cases if c["fault"] == "none"))
